@@ -4,6 +4,37 @@ import json, os, sys
 HERE = os.path.dirname(os.path.dirname(os.path.abspath(__file__)))
 
 CHECKS = {
+ "C03": dict(
+   technique="exhaustive conversion table (context x source x target type) + Hypothesis conversion chains, differential against a C11 reference",
+   text="All 8x8 type pairs plus boolean sources in eleven conversion contexts (explicit cast, initialiser, assignment, chained assignment, "
+        "Rd/Rdd/Pd/alias register write, argument, return, store+load) are executed on boundary values (thorough: all 256 values for 8-bit "
+        "sources) by the reference evaluator and the RzIL interpreter; chains of up to three conversions (separate statements or nested "
+        "casts) come from Hypothesis. The table is enumerated completely, values are sampled.",
+   note="Trusted: vlib/cref conversion rules (C11 6.3.1.3, two's complement narrowing), vlib/il, machine model. Identity/converting "
+        "sub-routines are registered through the public add_sub_routine API.",
+   design="7/C03"),
+ "C10": dict(
+   technique="static RzIL sort checker over corpus, sub-routines and Hypothesis-generated programs (both layouts)",
+   text="An independent sort checker (bool / bv(n) / effect, equal-width rules, ITE arms, SEQN arity, LET scope, one width per local incl. "
+        "callee bodies in the flat namespace, register-write and store widths) is run over the whole term graph - every BRANCH/ITE arm and "
+        "loop body - of every accepted corpus part (thorough: all), every bundled sub-routine and generated programs, in both layouts.",
+   note="Trusted: the sort rules in vlib/il/static.py (written from the RzIL documentation, no Rizin source in the sandbox), register widths "
+        "from the architectural table, parameter widths from declared C types.",
+   design="7/C10"),
+ "C11": dict(
+   technique="generated-program and corpus search with a C-body well-formedness predicate (validity oracle)",
+   text="Every returned text (corpus parts, sub-routine definitions, generated programs; both layouts) must consist of declarations with "
+        "initialiser and a final return, declare every identifier once and before use, use valid identifiers and balanced parentheses; "
+        "needs_hi/needs_pkt and getter names/declarations are checked, getter uniqueness over the whole corpus.",
+   note="Trusted: strict line reader vlib/il/reader.py; plugin vocabulary assumed to be hi/pkt/bundle plus HEX_*/RZ_FLOAT_* names.",
+   design="7/C11"),
+ "C12": dict(
+   technique="generated-program and corpus search with a linear-ownership counting predicate (validity oracle)",
+   text="For every RzILOpPure variable: exactly one raw use, all other uses DUP; every RzILOpEffect used exactly once; borrowed parameters "
+        "consumed at most once; nothing initialised left unused - counted over all later initialisers and the return for corpus parts, "
+        "sub-routine bodies and generated programs with heavy operand re-use, in both layouts.",
+   note="Which use is the raw one is not judged (C evaluation order is unspecified). Trusted: reader + counter in vlib/il/static.py.",
+   design="7/C12"),
  "C02": dict(
    technique="exhaustive operator x type table + Hypothesis expression trees, differential against a C11 reference evaluator",
    text="Every operator x left type x right type cell (16 binary, 3 unary, ?:; 8 integer types) and all depth-2 operator pairs are compiled "
